@@ -168,7 +168,8 @@ func decodeCandidate(s *rlp.Stream) (interface{}, error) {
 	if size <= 0 {
 		var result interface{}
 		err := s.Decode(&result)
-		return &result, err
+		empty := make(types.Profile)
+		return &empty, err
 	} else {
 		result := make(types.Profile)
 		err := s.Decode(&result)
@@ -199,7 +200,7 @@ func decodeAsset(s *rlp.Stream) (interface{}, error) {
 	if size <= 0 {
 		var result interface{}
 		err := s.Decode(&result)
-		return nil, err
+		return (*types.Asset)(nil), err
 	} else {
 		var result types.Asset
 		result.TotalSupply = new(big.Int)
@@ -228,7 +229,7 @@ func decodeSigners(s *rlp.Stream) (interface{}, error) {
 	if size <= 0 {
 		var result interface{}
 		err := s.Decode(&result)
-		return nil, err
+		return make(types.Signers, 0), err
 	} else {
 		result := make(types.Signers, 0)
 		err := s.Decode(&result)
